@@ -29,11 +29,20 @@ fn site(name: &str, which: usize) -> (E, Vec<Stmt>) {
             E::Seq(vec![E::lit("s"), E::r("W")]),
             vec![crate::fam::def("Y", E::Opt(Box::new(r))), crate::fam::def("W", E::r("Z")), crate::fam::def("Z", E::Seq(vec![E::lit("z"), E::r("Y")]))],
         ),
-        _ => (E::r("Z"), vec![crate::fam::def("Z", E::r("Y")), crate::fam::def("Y", E::Word(vec![E::lit("k="), r]))]),
+        8 => (E::r("Z"), vec![crate::fam::def("Z", E::r("Y")), crate::fam::def("Y", E::Word(vec![E::lit("k="), r]))]),
+        // referenced more than once: in a row, in two words, directly and through a definition
+        9 => (E::Seq(vec![r.clone(), r]), vec![]),
+        10 => (E::Alt(vec![E::Word(vec![E::lit("--a="), r.clone()]), E::Word(vec![E::lit("--b="), r])]), vec![]),
+        11 => (E::Seq(vec![E::r("Y"), E::lit("m"), r.clone()]), vec![crate::fam::def("Y", E::Alt(vec![E::lit("y"), r]))]),
+        // next to the other built-in name, which has a plain command definition of its own
+        _ => {
+            let other = if name == "DIRECTORY" { "PATH" } else { "DIRECTORY" };
+            (E::Seq(vec![E::r(other), r, E::Word(vec![E::lit("o="), E::r(other)])]), vec![crate::fam::def(other, E::cmd("echo OTHER_plain"))])
+        }
     }
 }
 
-const NSITES: usize = 9;
+const NSITES: usize = 13;
 
 pub fn run(tier: Tier) -> Report {
     let mut rep = Report::new("C11", tier, "exploration");
@@ -45,7 +54,7 @@ pub fn run(tier: Tier) -> Report {
     let _ = tier;
 
     // plain definition flavours: none, a command, (for every name) a non-command expression
-    for name in ["X", "PATH", "DIRECTORY"] {
+    for name in ["X", "PATH", "DIRECTORY", "file name", "\u{444}\u{430}\u{439}\u{43b}.\u{e9}"] {
         for plain_kind in 0..3 {
             for mask in 0..16u32 {
                 for which in 0..NSITES {
@@ -81,7 +90,7 @@ pub fn run(tier: Tier) -> Report {
                             "plain".into()
                         } else if plain_kind == 2 {
                             "plain-expression".into()
-                        } else if name != "X" {
+                        } else if name == "PATH" || name == "DIRECTORY" {
                             "builtin".into()
                         } else {
                             "any-word".into()
@@ -190,7 +199,7 @@ pub fn run(tier: Tier) -> Report {
     rep.cov("product_states", J::i(states as i64));
     rep.cov(
         "rule",
-        J::s("exhaustive: name in {X, PATH, DIRECTORY} x plain definition in {none, command, non-command expression} x all 2^4 subsets of {@bash,@fish,@zsh,@pwsh} command definitions (distinct probe texts) x 9 reference sites (top level, tail of a word, through a definition, under ||, under [] ..., through a definition inside a word, through chains of two and three definitions, through a chain into a word) x 4 targets. Per case: full product equivalence with the reference automaton (R1 built in), presence/absence of every probe text in the emitted script, byte-equality of the script with other-shell definitions removed. distinct = distinct (grammar text, target) pairs."),
+        J::s("exhaustive: name in {X, PATH, DIRECTORY, a name with a blank, a non-ASCII name} x plain definition in {none, command, non-command expression} x all 2^4 subsets of {@bash,@fish,@zsh,@pwsh} command definitions (distinct probe texts) x 13 reference sites (two references in a row, in two words, directly plus through a definition, next to the other built-in name with a plain definition of its own; top level, tail of a word, through a definition, under ||, under [] ..., through a definition inside a word, through chains of two and three definitions, through a chain into a word) x 4 targets. Per case: full product equivalence with the reference automaton (R1 built in), presence/absence of every probe text in the emitted script, byte-equality of the script with other-shell definitions removed. distinct = distinct (grammar text, target) pairs."),
     );
     rep.cov("exhaustive", J::Bool(true));
     rep.cov("samples", J::Arr(samples.items));
